@@ -10,6 +10,7 @@ from ..model import AnchorMissing, Func, Undecided, norm, walk_no_nested
 from ..poly import Poly, Rat, to_rat
 from ..report import Ctx
 from ..variants import Variant
+from .common import metric_direction
 from .c03 import BEATS_REF
 from .resultrun import ResultInterp, Tagged, build_edge_case_handler, metric_objs, reducer_verdict
 
@@ -96,8 +97,10 @@ def check_evaluate(ctx: Ctx):
     pcls = prog.cls("utils.processing_pair:MatchedInstancePair")
     metrics = metric_objs(prog)
     by = {m.attrs["_name_"]: m for m in metrics}
-    inc = next(m for m in metrics if not m.attrs["value"].attrs["decreasing"])
-    dec = next(m for m in metrics if m.attrs["value"].attrs["decreasing"])
+    inc = next((m for m in metrics if not metric_direction(prog, m)), None)
+    dec = next((m for m in metrics if metric_direction(prog, m)), None)
+    if inc is None or dec is None:
+        raise AnchorMissing("Metric registry: needs a 'higher is better' and a 'lower is better' member")
     other = next(m for m in metrics if m is not inc and m is not dec)
     evalm = [inc, dec, other]
     pn = {p.name for p in f.call_params}
@@ -137,7 +140,7 @@ def check_evaluate(ctx: Ctx):
                 if dm is None:
                     passing = [0, 1, 2, 3]
                 else:
-                    d = bool(dm.attrs["value"].attrs["decreasing"])
+                    d = metric_direction(prog, dm)
                     passing = [i for i, s in enumerate(SCORES) if (d, "<" if s < thr else "=" if s == thr else ">") in BEATS_REF]
                 got_tp = res.attrs.get("tp")
                 lm = res.attrs.get("list_metrics")
